@@ -100,6 +100,7 @@ func genMutualCycle(r *simrt.RNG) world.World {
 
 func (C02) Gen(r *simrt.RNG, tier string) core.Case {
 	cfg := world.SwarmCfg(r)
+	world.Deepen(&cfg, r, tier)
 	var w world.World
 	switch x := r.Intn(20); {
 	case x < 11:
